@@ -382,6 +382,11 @@ impl crate::traits::Transaction for SqliteStore {
 
         let result = tx.commit().await.map_err(SqliteError::Sqlite);
 
+        #[cfg(p2panda_p2panda_verif)]
+        if result.is_ok() {
+            verif_hooks::committed();
+        }
+
         // Always drop the permit, both on successful commit and error. This will allow other
         // processes now to begin a new transaction and acquire the permit.
         permit.mark_committed_and_drop();
@@ -471,6 +476,32 @@ pub mod verif_hooks {
         let hook = HOOK.lock().expect("hook lock").clone();
         if let Some(hook) = hook {
             hook(name).await;
+        }
+    }
+
+    /// Callback invoked right after every successful `commit` with the running number (1-based) of
+    /// committed transactions of this process (crash injection: the callback may abort the process).
+    pub type CommitHook = Arc<dyn Fn(u64) + Send + Sync>;
+
+    static COMMIT_HOOK: Mutex<Option<CommitHook>> = Mutex::new(None);
+
+    static COMMITS: std::sync::atomic::AtomicU64 = std::sync::atomic::AtomicU64::new(0);
+
+    /// Installs (or with `None` removes) the process-wide commit callback.
+    pub fn set_commit_hook(hook: Option<CommitHook>) {
+        *COMMIT_HOOK.lock().expect("commit hook lock") = hook;
+    }
+
+    /// Number of transactions committed by this process so far.
+    pub fn commit_count() -> u64 {
+        COMMITS.load(std::sync::atomic::Ordering::SeqCst)
+    }
+
+    pub(crate) fn committed() {
+        let n = COMMITS.fetch_add(1, std::sync::atomic::Ordering::SeqCst) + 1;
+        let hook = COMMIT_HOOK.lock().expect("commit hook lock").clone();
+        if let Some(hook) = hook {
+            hook(n);
         }
     }
 }
